@@ -52,6 +52,21 @@ def compile_objects(outdir, units, jobs=NPROC):
     return objs
 
 
+ALLOC_SYMS = {"_Znwm": "vsim_Znwm", "_Znam": "vsim_Znam", "_ZdlPv": "vsim_ZdlPv", "_ZdaPv": "vsim_ZdaPv", "_ZdlPvm": "vsim_ZdlPvm", "_ZdaPvm": "vsim_ZdaPvm"}
+
+
+def redirect_allocator(objs):
+    """the objects compiled from /repo call the simulator's allocator entry points instead of operator new / delete (sim/vsim.cpp, VSIM_PROC):
+    an allocation can then be a scheduling point 'inside malloc', and a signal handler that allocates on top of it is seen"""
+    args = []
+    for a, b in sorted(ALLOC_SYMS.items()):
+        args += ["--redefine-sym", "%s=%s" % (a, b)]
+    for o in objs:
+        r = run(["objcopy"] + args + [o])
+        if r.returncode != 0:
+            log("objcopy failed on %s: %s" % (o, r.stderr[-500:])); raise SystemExit(2)
+
+
 def link(out, objs, flags):
     r = run([CXX] + objs + flags + ["-o", out])
     if r.returncode != 0:
